@@ -193,8 +193,15 @@ def gen_spec(rng, knobs) -> dict:
             contexts[ci]["redefs"].append({"name": v, "factor": fac, "ref": dict(table.units[v]["ref"])})
         spec["redef_clash"] = [i, j, v]
     # contexts whose activation must fail (invalid redefinition at position j)
+    kinds = ["undef", "prefixed", "base", "dim"]
+    if knobs.get("ci"):
+        # a case-insensitive registry with two units that differ only in case: redefining one of them is
+        # ambiguous and pint refuses it with an assertion - another exception class than the usual ones
+        units.append({"name": "tw", "factor": "2", "ref": {base[0]: 1}})
+        units.append({"name": "TW", "factor": "5", "ref": {base[0]: 1}})
+        kinds = kinds + ["ambiguous", "ambiguous"]
     if knobs.get("badctx", True) and rng.random() < 0.7:
-        for kind in rng.sample(["undef", "prefixed", "base", "dim"], rng.randint(1, 2)):
+        for kind in rng.sample(kinds, rng.randint(1, 2)):
             ci = len(contexts)
             ctx = {"name": f"c{ci}", "aliases": [], "via": "file", "defaults": {}, "rules": [],
                    "redefs": [], "bad": kind}
@@ -208,6 +215,8 @@ def gen_spec(rng, knobs) -> dict:
                 ctx["redefs"].append({"name": "K" + v, "factor": "3", "ref": dict(table.units[v]["ref"])})
             elif kind == "base":
                 ctx["redefs"].append({"name": base[0], "factor": "3", "ref": {base[-1]: 1}})
+            elif kind == "ambiguous":
+                ctx["redefs"].append({"name": "tw", "factor": "3", "ref": {base[0]: 1}})
             elif kind == "dim" and redefinable:
                 v = redefinable[0]
                 _, vdim = table.root_of_unit(v)
@@ -320,7 +329,7 @@ class ProgGen:
         # dimension vectors worth probing: every rule endpoint and every unit's dimension
         self.by_dim = {}
         for n in self.table.order:
-            if n in ("umk", "uobs"):
+            if n in ("umk", "uobs", "tw", "TW"):
                 continue
             _, d = self.table.root_of_unit(n)
             if d:
@@ -439,11 +448,15 @@ class ProgGen:
                 out.append({"id": self.sid(), "k": "raise"})
             elif r < 0.93:
                 self.ndef += 1
-                base = [n for n in self.table.order if n not in ("umk", "uobs")]
+                base = [n for n in self.table.order if n not in ("umk", "uobs", "tw", "TW")]
                 out.append({"id": self.sid(), "k": "define", "name": f"x{self.ndef}", "factor": _num_lit(rng),
                             "ref": {rng.choice(base): 1}})
             elif r < 0.96:
                 out.append({"id": self.sid(), "k": "gc"})
+            elif r < 0.975 and any(c["bad"] == "undef" for c in self.spec["contexts"]):
+                # the unit whose absence makes a context invalid gets defined: from then on the context is valid
+                out.append({"id": self.sid(), "k": "define", "name": "nosuch", "factor": _num_lit(rng),
+                            "ref": {BASE_UNITS[0]: 1}, "heal": True})
             elif r < 0.985:
                 # a parameter value that cannot be hashed: with a redefining context the combination key
                 # cannot be computed, the activation must fail and change nothing
@@ -654,6 +667,7 @@ class CtxWorld:
             "pyctx": kr.random() < 0.8,
             "badctx": True,
             "on_redef": kr.choice(["warn", "warn", "raise", "ignore"]),
+            "ci": kr.random() < 0.15,
         }
         spec = gen_spec(streams.get("world"), knobs)
         pg = ProgGen(streams.get("program"), spec, knobs, self.prop)
@@ -686,6 +700,27 @@ class CtxWorld:
             a = kr.randint(0, len(program))
             b = kr.randint(a, len(program))
             program = program[:a] + parts[0] + program[a:b] + parts[1] + program[b:]
+        undef = [i for i, c in enumerate(spec["contexts"]) if c["bad"] == "undef"]
+        if undef and kr.random() < 0.5:
+            # an activation that fails because a unit is missing, the unit gets defined, the very same
+            # activation again: now everything the context redefines must be in force
+            i = undef[0]
+            ref = {"c": i, "via": "name"}
+            snippet = [{"id": pg.sid(), "k": "enable", "ctxs": [dict(ref)], "kw": {}},
+                       {"id": pg.sid(), "k": "define", "name": "nosuch", "factor": "5", "ref": {BASE_UNITS[0]: 1}, "heal": True},
+                       {"id": pg.sid(), "k": "enable", "ctxs": [dict(ref)], "kw": {}},
+                       {"id": pg.sid(), "k": "probe", "x": "2", "src": {"nosuch": 1}, "dst": {BASE_UNITS[0]: 1}, "form": "to",
+                        "use_def": False, "needs_heal": True}]
+            for rd in spec["contexts"][i]["redefs"]:
+                if rd["name"] != "nosuch":
+                    t = pg.table
+                    _, d = t.root_of_unit(rd["name"])
+                    bod = t.base_unit_of_dim()
+                    snippet.append({"id": pg.sid(), "k": "probe", "x": "2", "src": {rd["name"]: 1},
+                                    "dst": {bod[k]: e for k, e in d.items()}, "form": "to", "use_def": False})
+            snippet.append({"id": pg.sid(), "k": "disable", "n": 1})
+            a = kr.randint(0, len(program))
+            program = program[:a] + snippet + program[a:]
         fr = streams.get("faults")
         rates = {}
         if fr.random() < 0.7:  # swarm: a random subset of fault sites is enabled, sometimes none
@@ -902,6 +937,7 @@ class _Run:
         self.in_probe = False
         self.ended = False
         self.last_fail = None
+        self.healed = False  # the unit missing from the 'undef' contexts has been defined
 
     # ------------------------------------------------------------ setup / teardown
     def num(self, s):
@@ -939,7 +975,7 @@ class _Run:
         lines = render(self.spec)
         self.lines = lines
         T = Fraction if self.exact else float
-        kw = {"on_redefinition": self.knobs.get("on_redef", "warn")}
+        kw = {"on_redefinition": self.knobs.get("on_redef", "warn"), "case_sensitive": not self.knobs.get("ci")}
         if self.spec.get("default_system"):
             kw["system"] = self.spec["default_system"]
         try:
@@ -1032,7 +1068,7 @@ class _Run:
     def make_battery(self):
         t = self.model.base
         qs = []
-        names = [n for n in t.order if n not in ("umk", "uobs")]
+        names = [n for n in t.order if n not in ("umk", "uobs", "tw", "TW")]
         by = {}
         for n in names:
             _, d = t.root_of_unit(n)
@@ -1277,7 +1313,7 @@ class _Run:
             c = self.spec["contexts"][r["c"]]
             if c.get("dropped"):
                 raise HarnessError("reference to dropped context")
-            if c["bad"]:
+            if c["bad"] and not (c["bad"] == "undef" and self.healed):
                 bad = True
             via = r["via"]
             if via == "alias" and not c["aliases"]:
@@ -1444,6 +1480,9 @@ class _Run:
     def do_define(self, s, ri):
         # the same statement is applied to every registry so that they keep the same definitions
         line = f"{s['name']} = {s['factor']} * {mono_str(s['ref'])}"
+        if s.get("heal"):
+            if self.healed or any(m.overlay_active() for m in self.models):
+                return  # once, and only into the registry proper (DESIGN.md O3)
         for rj, ureg in enumerate(self.regs):
             model = self.models[rj]
             try:
@@ -1457,11 +1496,16 @@ class _Run:
                 model.runtime[s["name"]] = {"name": s["name"], "factor": s["factor"], "ref": dict(s["ref"])}
                 model.epoch += 1
                 self.col.probe("define_plain")
+                if s.get("heal"):
+                    self.healed = True
+                    self.col.probe("invalid_context_healed")
         self.log.ev(s["id"], "define", s["name"])
         self.after(s, ri, "define")
 
     def do_probe(self, s, ri):
         ureg, model = self.regs[ri], self.models[ri]
+        if s.get("needs_heal") and "nosuch" not in model.runtime:
+            return  # the unit was not defined (a redefining context was active): nothing to ask
         src, dst = dict(s["src"]), dict(s["dst"])
         if s.get("use_def") and model.runtime:
             # use the most recent run-time unit if it is plainly defined
